@@ -71,8 +71,14 @@ package dns
 //@   ensures data: fresh(asptr(ret0, SVCBLocal).Data)
 //@ func (*SVCBIPv4Hint).copy [C16]
 //@   ensures hint: fresh(asptr(ret0, SVCBIPv4Hint).Hint)
+//@   ensures each: forall k in 0..len(asptr(ret0, SVCBIPv4Hint).Hint) :: fresh(asptr(ret0, SVCBIPv4Hint).Hint[k])
+//@   loop 1 invariant forall k in 0..rangeindex+1 :: fresh(hint[k])
+//@   loop 1 invariant -1 <= rangeindex && rangeindex < len(hint) && len(hint) == len(s.Hint)
 //@ func (*SVCBIPv6Hint).copy [C16]
 //@   ensures hint: fresh(asptr(ret0, SVCBIPv6Hint).Hint)
+//@   ensures each: forall k in 0..len(asptr(ret0, SVCBIPv6Hint).Hint) :: fresh(asptr(ret0, SVCBIPv6Hint).Hint[k])
+//@   loop 1 invariant forall k in 0..rangeindex+1 :: fresh(hint[k])
+//@   loop 1 invariant -1 <= rangeindex && rangeindex < len(hint) && len(hint) == len(s.Hint)
 
 //@ func copyNet [C16]
 //@   opt no-safety
